@@ -4,6 +4,7 @@ package c16config
 import (
 	"bytes"
 	"fmt"
+	"github.com/relex/slog-agent/buffer/hybridbuffer"
 	"os"
 	"path/filepath"
 	"strings"
@@ -111,6 +112,16 @@ transformations:
   - type: parseTime
     key: time
     errorLabel: timeError
+  - type: drop
+    match:
+      app: abandoned
+    percentage: 100
+    metricLabel: unwanted
+  - type: drop
+    match:
+      app: dropme
+    percentage: 100
+    metricLabel: unwanted
   - type: drop
     match:
       app: !!str-start drop
@@ -387,6 +398,13 @@ func runCase(c Case) vh.Result {
 	// accepted: everything must be constructible and able to process records
 	bufRoot := filepath.Join(workDir, "buf")
 	defer os.RemoveAll(bufRoot)
+	// queues left by an earlier run: for the unmutated bases, the generated files, and one in six of the accepted mutants
+	// (it triples the cost of a case)
+	acceptedSeq++
+	withLeftovers = c.Mut.Kind == "none" || c.Base == "generated" || acceptedSeq%6 == 0
+	if withLeftovers {
+		res.Classes = append(res.Classes, "started-on-queues-left-by-another-configuration")
+	}
 	if pf := vh.Protect(func() { instantiate(conf, schema) }); pf != nil {
 		pf.Key = "config:accepted-" + pf.Key
 		pf.Msg = fmt.Sprintf("accepted configuration crashed (mutation %s %s %q)\n%s", c.Mut.Site, c.Mut.Kind, c.Mut.Fault, pf.Msg)
@@ -429,6 +447,12 @@ func instantiate(conf run.Config, schema base.LogSchema) {
 		NewConsumerOverride: clog.Override,
 	}
 	mf := promreg.NewMetricFactory("c16_", nil, nil)
+	// The agent does not start on empty queue directories in general: an earlier run, possibly under another
+	// configuration (other orchestration keys), may have left queues with chunks. Every output's buffer root gets queue
+	// directories whose stored IDs have 1-4 values, each holding one real chunk of that output (made in step 1).
+	if withLeftovers {
+		leaveQueues(conf, sp, mf)
+	}
 	orch := conf.Orchestration.Value.StartOrchestrator(logger.Root(), args, mf)
 	sink := orch.NewSink("client", 5)
 	icount := base.NewLogInputCounter(mf.AddOrGetPrefix("in_", nil, nil))
@@ -448,6 +472,48 @@ func instantiate(conf run.Config, schema base.LogSchema) {
 	sink.Tick()
 	sink.Close()
 	orch.Shutdown()
+}
+
+// leaveQueues creates, through the real bufferer of every output, queue directories for IDs with 1-4 comma-separated
+// values and puts one chunk file into each.
+var (
+	withLeftovers bool // set per case by runCase
+	acceptedSeq   int
+)
+
+var leftDirs = map[string]string{} // buffer root + NUL + queue ID -> queue directory
+
+func leaveQueues(conf run.Config, sp *vh.SyncPipeline, mf *promreg.MetricFactory) {
+	for i, pair := range conf.OutputBuffersPairs {
+		hb, ok := pair.BufferConfig.Value.(*hybridbuffer.Config)
+		if !ok || i >= len(sp.Chunks) || len(sp.Chunks[i]) == 0 {
+			continue
+		}
+		chunk := sp.Chunks[i][0]
+		match := pair.OutputConfig.Value.MatchChunkID
+		if !match(chunk.ID) {
+			continue
+		}
+		for n, id := range []string{"left", "left,over", "l,e,f", "l,e,f,t"} {
+			if dir, ok := leftDirs[os.ExpandEnv(hb.RootPath)+"\x00"+id]; ok {
+				if _, err := os.Stat(dir); err == nil { // made by an earlier case: only the chunk file has to be put back
+					_ = os.WriteFile(filepath.Join(dir, chunk.ID), chunk.Data, 0o644)
+					continue
+				}
+			}
+			b := hb.NewBufferer(logger.Root(), id, match, mf.AddOrGetPrefix("pre_", []string{"o", "n"}, []string{fmt.Sprint(i), fmt.Sprint(n)}), false)
+			b.Start()
+			b.Destroy()
+			b.Stopped().WaitForever()
+			idFiles, _ := filepath.Glob(filepath.Join(os.ExpandEnv(hb.RootPath), "*", ".id"))
+			for _, f := range idFiles {
+				if got, err := os.ReadFile(f); err == nil && string(got) == id {
+					_ = os.WriteFile(filepath.Join(filepath.Dir(f), chunk.ID), chunk.Data, 0o644)
+					leftDirs[os.ExpandEnv(hb.RootPath)+"\x00"+id] = filepath.Dir(f)
+				}
+			}
+		}
+	}
 }
 
 // ---------------------------------------------------------------------------
